@@ -1,2 +1,76 @@
-(** C01 -- placeholder until InterpProofs is in place *)
-From RbpfV Require Import Isa Interp.
+(** C01 -- the interpreter returns the value the eBPF ISA defines.
+    [run] drives coq/gen/Interp.v (interpreter.rs regenerated: check_mem, register initialisation,
+    every arm of the instruction loop); [isa_run] is the specification theories/Isa.v.
+    Proofs: theories/InterpArms*.v, theories/InterpProofs.v. *)
+From Coq Require Import ZArith List Bool.
+From RbpfV Require Import MachInt Ebpf Cases Mem InterpDefs WellFormed Verifier Isa MemLemmas Interp InterpProofs
+  Stack Helpers.
+From RbpfV.gen Require Import Interp.
+Import ListNotations.
+Open Scope Z_scope.
+
+(** For every accepted program, every environment of a user-space execution (any packet,
+    metadata buffer, registered ranges, helper set, stack-usage map), every initial memory and
+    every instruction budget: the interpreter's outcome -- returned value and final bytes, or error
+    kind and bytes at that point, or budget exhaustion -- is the ISA's.
+    [d7_free] excludes exactly the instruction forms of known finding D7 (below). *)
+Theorem C01_interp_refines_isa : forall E m0 fuel,
+  bytes_ok (e_prog E) -> acc (e_prog E) -> env_ok E -> mem_ok m0 -> d7_free E ->
+  run fuel E m0 = isa_run fuel E m0.
+Proof. exact interp_refines_isa. Qed.
+
+(** one iteration of the regenerated loop is one ISA step, on every reachable state *)
+Theorem C01_step_refines : forall E s,
+  bytes_ok (e_prog E) -> acc (e_prog E) -> env_ok E -> Inv E s ->
+  (let '(_, pc, _, _, _) := s in no_d7 (insn_at (e_prog E) pc)) ->
+  gen_interp_loop_body E s = ArmBase.conv (isa_step E s).
+Proof. intros E s Hb Ha He. exact (body_refines E Hb Ha He s). Qed.
+
+(** known finding D7 is real and is exactly this class: `lddw r1, -2 ; jeq r1, -2, +1 ; mov r0, 1 ;
+    exit ; mov r0, 2 ; exit` is accepted, the ISA takes the branch (r0 = 2), the interpreter
+    does not (r0 = 1) *)
+Definition d7_prog : list Z :=
+  hexbytes 56 0x18010000feffffff00000000ffffffff15010200feffffffb7000000010000009500000000000000b7000000020000009500000000000000.
+Definition d7_env : ienv :=
+  mk_env d7_prog (fun _ => None) (usage_map d7_prog None)
+         {| r_base := 0x10000000; r_data := [] |} {| r_base := 0x20000000; r_data := [] |} 0x30000000 [].
+Definition d7_mem : mem :=
+  mk_mem {| r_base := 0x10000000; r_data := [] |} {| r_base := 0x20000000; r_data := [] |} 0x30000000
+         {| r_base := 0x40000000; r_data := [] |}.
+
+Theorem C01_known_D7_witness :
+  accb d7_prog = true /\
+  (exists r m, run 10 d7_env d7_mem = ODone r m /\ r = 1) /\
+  (exists r m, isa_run 10 d7_env d7_mem = ODone r m /\ r = 2) /\
+  ~ d7_free d7_env.
+Proof.
+  split; [vm_compute; reflexivity|]. split; [eexists; eexists; split; [vm_compute; reflexivity|reflexivity]|].
+  split; [eexists; eexists; split; [vm_compute; reflexivity|reflexivity]|].
+  intros H. specialize (H 2). unfold no_d7 in H.
+  assert (In 2 (starts (e_prog d7_env))) as S by (vm_compute; auto).
+  specialize (H S). assert (In (opc (insn_at (e_prog d7_env) 2)) L_jimm) as J by (vm_compute; auto).
+  specialize (H J). vm_compute in H. apply H. reflexivity.
+Qed.
+
+(** non-vacuity: a program with a negative immediate in a signed jump, a shift by 65 and a
+    backward edge meets every hypothesis and returns *)
+Definition ex_prog : list Z := hexbytes 72 0xb700000000000000b7010000030000000700000005000000bf02000000000000670200004100000007010000ffffffff6501fbffffffffff0f200000000000009500000000000000.
+Definition ex_env : ienv :=
+  mk_env ex_prog (fun _ => None) (usage_map ex_prog None)
+         {| r_base := 0x10000000; r_data := [] |} {| r_base := 0x20000000; r_data := [1; 2; 3; 4] |} 0x30000000 [].
+Definition ex_mem : mem :=
+  mk_mem {| r_base := 0x10000000; r_data := [] |} {| r_base := 0x20000000; r_data := [1; 2; 3; 4] |} 0x30000000
+         {| r_base := 0x40000000; r_data := [] |}.
+Example C01_example :
+  accb ex_prog = true /\ bytes_okb ex_prog = true /\
+  (forall k, In k (starts ex_prog) -> inb (opc (insn_at ex_prog k)) L_jimm = false) /\
+  exists r m, run 100 ex_env ex_mem = ODone r m /\ isa_run 100 ex_env ex_mem = ODone r m.
+Proof.
+  split; [vm_compute; reflexivity|]. split; [vm_compute; reflexivity|]. split.
+  - intros k Hk. vm_compute in Hk. repeat (destruct Hk as [<-|Hk]; [vm_compute; reflexivity|]). destruct Hk.
+  - eexists; eexists. split; vm_compute; reflexivity.
+Qed.
+
+Print Assumptions C01_interp_refines_isa.
+Print Assumptions C01_step_refines.
+Print Assumptions C01_known_D7_witness.
